@@ -251,6 +251,8 @@ def do_op(objs, o, conc):
 def replay_gen(payload):
     rng = random.Random(payload["seed"])
     hs = int(os.environ.get("PYTHONHASHSEED", "0"))
+    # the torch backend builds tensors through float32 (torch.Tensor(values)) before casting: 1e-6 there
+    TOL = 1e-9 if os.environ.get("VERIF_BACKEND", "numpy") == "numpy" else 1e-6
     pools = {p["id"]: p for p in payload["pools"]}
     fails, ncalls = [], 0
     for beh in payload["behs"]:
@@ -301,7 +303,7 @@ def replay_gen(payload):
                 for c in exp["cells"]:
                     x = vals[json.dumps(c["a"] if isinstance(c["a"], dict) else {}, sort_keys=True)]
                     n, d = c["v"]
-                    okv = (x == float("inf")) if d == 0 else abs(x - n / d) <= 1e-9 * max(1.0, abs(n / d))
+                    okv = (x == float("inf")) if d == 0 else abs(x - n / d) <= TOL * max(1.0, abs(n / d))
                     if not okv:
                         bad = (kind + ".value", {"obj": k + 1, "a": c["a"], "got": x}, c["v"])
                         break
